@@ -13,6 +13,7 @@ import Emu.Proofs.Chunks
 import Emu.Proofs.Sample
 import Emu.Proofs.MergeInPlace
 import Emu.Proofs.LeafTie.MessageOnInvalidKeyRanges
+import Emu.Proofs.LeafTie.MergeSimpleRanges
 
 namespace Emu.Props.C03
 open Emu Emu.Bt Emu.Proofs.BtRows Emu.Proofs.Ranges
@@ -208,5 +209,20 @@ theorem source_messageOnInvalidKeyRanges_is_the_models (rr : RowRange) :
     (!decide (Emu.Generated.Leaf.messageOnInvalidKeyRanges rr.s.closedKey rr.s.openKey rr.e.closedKey rr.e.openKey = []))
       = invalidRowRange rr :=
   Emu.Proofs.LeafTie.messageOnInvalidKeyRanges_tie rr
+
+/-- The closures of `mergeSimpleRanges` — the end comparison `endCmp` (an empty end is infinite), the
+    order handed to `sort.Slice`, and `merge` (two results read as an `Option`) — read off the Go text by
+    `factx` on every run, are the Model's `endLt`, `srLess` and `merge1`, the functions the merged-range
+    theorems above are stated with (`srOf` reads the repository's `simpleRange` as the Model's). -/
+theorem source_range_closures_are_the_models (a b : Emu.Generated.Leaf.GsimpleRange) :
+    decide (Emu.Generated.Leaf.endCmp a b < (0 : Int)) = endLt (Emu.Proofs.LeafTie.srOf a) (Emu.Proofs.LeafTie.srOf b) ∧
+    Emu.Generated.Leaf.less a b = srLess (Emu.Proofs.LeafTie.srOf a) (Emu.Proofs.LeafTie.srOf b) ∧
+    (Emu.Generated.Leaf.merge a b).map Emu.Proofs.LeafTie.srOf
+      = merge1 (Emu.Proofs.LeafTie.srOf a) (Emu.Proofs.LeafTie.srOf b) :=
+  ⟨Emu.Proofs.LeafTie.endCmp_neg a b, Emu.Proofs.LeafTie.less_tie a b, Emu.Proofs.LeafTie.merge_tie a b⟩
+
+example : Emu.Generated.Leaf.merge ⟨[98], [97]⟩ ⟨[], [97, 0]⟩ = some ⟨[], [97]⟩ ∧
+    Emu.Generated.Leaf.merge ⟨[98], [97]⟩ ⟨[100], [99]⟩ = none ∧
+    Emu.Generated.Leaf.less ⟨[], [97]⟩ ⟨[98], [97]⟩ = false ∧ Emu.Generated.Leaf.less ⟨[98], [97]⟩ ⟨[], [97]⟩ = true := by decide
 
 end Emu.Props.C03
